@@ -56,6 +56,7 @@ def resolve_runs(P, tier):
           R('resolve-paths-k3', 'h_resolve.c', P + ['KB=1', 'KR=3', 'SEGL=1'] + RES_PATH, 'base <=1 segment, reference of <=3 one-character segments (reaches /.//x and x/..//y)', RESCOV + ['slash-dot-guard-expected'], 300),
           R('resolve-base-authority', 'h_resolve.c', P + RES_CB, 'base with every authority shape (user info none/empty/1 char, host reg-name/IPv4/IPv6/IPvFuture, port none/empty/1 digit), reference [scheme] path<=1 seg [?query]', RESCOV + ['ref-has-scheme'], 400),
           R('resolve-mixed', 'h_resolve.c', P + RES_CM, 'base scheme [//host] path<=1 [?q]; reference [scheme] [//host] path<=1 [?q] [#f]; 1-char segments', RESCOV + ['ref-has-scheme', 'ref-has-authority'], 600),
+          R('resolve-schemes', 'h_resolve.c', P + ['KB=0', 'KR=1', 'SEGL=1', 'BFLAGS=(G_SCHEME_REQ|G_SCHEME2|G_AUTH)', 'RFLAGS=(G_SCHEME_OPT|G_SCHEME2)'], 'schemes of one or two symbolic letters on both sides (equal, prefix of each other, different), both option values', ['ref-has-scheme', 'ref-merged'], 300),
           R('resolve-relative-base', 'h_resolve.c', P + RES_REL, 'base with or without scheme (error code for relative base)', ['relative-base'], 300)]
     if tier == 'thorough':
         rs += [R('resolve-paths-3', 'h_resolve.c', P + ['KB=2', 'KR=3', 'SEGL=2'] + RES_PATH, 'as resolve-paths with references of <=3 segments', RESCOV, 1500),
